@@ -93,11 +93,22 @@ def case(ctx, i, rec):
     for c, rtol, label in cs:
         tsc, kc = scaled_call(ts, method, kw, extra, c)
         b = pairs.run(tsc, method, kc)
+        if b.exc is not None and "fewer rescaling intervals" in str(b.exc) and label == "general" \
+                and pairs.near_tie_evidence(a, b):
+            # the rescaling step refuses breakpoints that tie after rounding: same observed mechanism
+            rec.violation("near-tie-in-rescaling-step",
+                          f"c={c!r}: base run returned, scaled run refused the rescaling ({b.exc}); observed {pairs.near_tie_evidence(a, b)[:2]}", c=c)
+            continue
         if b.exc is not None:
             rec.violation(f"{method}:scaled-run-raised:{label}",
                           f"base run returned but c={c!r} raised {common.exc_key(b.exc)}", c=c)
             continue
         devs = pairs.compare(rec, a, b, ct=1.0, rtol=rtol, label=f"{method}:{label}")
+        # variances are the least well conditioned output (quantile matching + Newton at sqrt(eps));
+        # at general factors they get 1e-4, everything else 1e-6 (measured noise on 150-tree inputs:
+        # 2.4e-8 on means, 3.7e-6 on variances)
+        if label == "general":
+            devs = {k_: (v_ / 100.0 if k_.endswith("_vr") else v_) for k_, v_ in devs.items()}
         worst = max(devs.values())
         rec.count(f"pairs:{method}:{label}")
         rec.count(f"binade:{int(np.floor(np.log2(c)))//10*10}")
